@@ -239,7 +239,8 @@ def r3(ctx):
     for pat, it in (("self.power['user']", "range(len(self.power['user']))"),
                     ('assemblies', "inp.data['Assembly'].keys()"),
                     ('regions', 'tmp.keys()')):
-        ok = any(isinstance(n, ast.For) and src(n.iter) == it
+        ok = any(isinstance(n, ast.For) and src(n.iter) in (
+            it, it[:-7] if it.endswith('.keys()') else it)
                  for n in walk_no_nested(fi.node))
         ctx.require(ok, 'C05.R3', fi, fi.node,
                     'boundary collection must iterate over %s' % it,
